@@ -1021,13 +1021,16 @@ def evalCall (v : View) (cur : String) (keys : List (String × String)) (edges :
 
 /-- One statement of a session `who = (user, address)` with current database `cur`: every recorded
 authorization call is evaluated against the privilege state *before* the statement; the first
-refusal is the outcome and leaves the state untouched; otherwise the effect is executed. -/
-def step (st : St σ) (who : String × String) (cur : String) (calls : List Call) (stmt : Stmt)
+refusal is the outcome and leaves the state untouched; otherwise the effect is executed.
+`atomic = false` is the implementation (the executors mutate the accounts in place, so a statement
+that fails half-way keeps what it has done so far); `atomic = true` is what the Spec demands: a
+failed statement has no effect. -/
+def step (atomic : Bool) (st : St σ) (who : String × String) (cur : String) (calls : List Call) (stmt : Stmt)
     (adminOnly : Bool := false) : St σ × String :=
   let run : St σ × String :=
     match exec A st cur stmt with
     | (st', none) => (st', "ok")
-    | (st', some e) => (st', e.str)
+    | (st', some e) => (if atomic then st else st', e.str)
   -- `NewQueryState`: a session whose (user, address) matches no account is refused outright (parse.go)
   match getUserIdx st.keys who.1 who.2 false with
   | none => (st, Outcome.noAccount.str)
@@ -1047,11 +1050,11 @@ structure Step where
   deriving Repr, Inhabited
 
 /-- A history: the observations of its steps, in order. -/
-def runHist (st : St σ) : List Step → List String
+def runHist (atomic : Bool) (st : St σ) : List Step → List String
   | [] => []
   | s :: r =>
-    let (st', o) := step A st s.who s.cur s.calls s.stmt
-    o :: runHist st' r
+    let (st', o) := step A atomic st s.who s.cur s.calls s.stmt
+    o :: runHist atomic st' r
 
 /-- The root account (`AddRootAccount`): every global static privilege. -/
 def rootUser : User σ :=
@@ -1080,6 +1083,18 @@ def regionStep (st : St GSet) (cur : String) : Stmt → Bool
 
 def histRegion (st : St GSet) : List Step → Bool
   | [] => false
-  | s :: r => regionStep st s.cur s.stmt || histRegion (step specPS st s.who s.cur s.calls s.stmt).1 r
+  | s :: r => regionStep st s.cur s.stmt || histRegion (step specPS true st s.who s.cur s.calls s.stmt).1 r
+
+/-! ## Region of the second known defect (F-C39-b): a statement that failed after doing part of its work -/
+
+/-- An account-management statement whose execution returns an error (after it was authorized). -/
+def failedStep (st : St GSet) (who : String × String) (cur : String) (calls : List Call) (stmt : Stmt) : Bool :=
+  match stmt with
+  | .none => false
+  | _ => (step specPS true st who cur calls stmt).2.startsWith "err:"
+
+def histFailed (st : St GSet) : List Step → Bool
+  | [] => false
+  | s :: r => failedStep st s.who s.cur s.calls s.stmt || histFailed (step specPS true st s.who s.cur s.calls s.stmt).1 r
 
 end Gms.Priv
